@@ -315,6 +315,21 @@ impl Harness for Tx {
             let f = img.find("remote_win_len").unwrap_or(0);
             eprintln!("     {}", &img[f..(f + 400).min(img.len())]);
         }
+        // C02 (i), against an adversarial peer: a live socket with unacknowledged or unsent data
+        // (or an unacknowledged FIN) must have a finite wake-up time. Judged after the polls of
+        // this event, with the device accepting frames.
+        {
+            let st = self.w.state();
+            let sq = self.w.sock().send_queue();
+            let live = !matches!(st, State::Closed | State::Listen | State::TimeWait);
+            let needs = live && (sq > 0 || matches!(st, State::SynSent | State::SynReceived | State::FinWait1 | State::Closing | State::LastAck));
+            if needs && self.w.poll_at().is_none() {
+                self.pending.push(Viol::new(
+                    format!("C02/no-deadline/adversarial-peer/{}", st),
+                    format!("state {} send_queue {} but Interface::poll_at is None after {:?}", st, sq, ev),
+                ));
+            }
+        }
         out.append(&mut self.pending);
     }
     fn fingerprint(&self) -> u128 {
@@ -368,6 +383,26 @@ pub fn tx_configs(tier: Tier) -> Vec<(TxCfg, usize)> {
     ]
 }
 
+/// the sender BFS for C02: same exploration, only the finite-deadline clause is collected
+pub fn explore_for_c02(rep: &mut Report, tier: Tier) {
+    let lim = Limits { max_states: 3_000_000, max_wall_s: if tier == Tier::Quick { 30.0 } else { 600.0 } };
+    for (cfg, d) in tx_configs(tier) {
+        let mut samples = vec![];
+        let mut found = vec![];
+        match bfs::<Tx>("tcp1tx", &cfg, d, &lim, &mut found, &mut samples) {
+            Ok(st) => rep.absorb(&format!("tcp1 sender vs adversarial peer cfg={} depth<={}", cfg.name, d), &st),
+            Err(e) => rep.machinery_errors.push(e),
+        }
+        for f in found {
+            if f.viol.sig.starts_with("MACHINERY") {
+                rep.machinery_errors.push(f.viol.detail);
+            } else if f.viol.sig.starts_with("C02/") || f.viol.sig.starts_with("panic/") {
+                rep.found.push(f);
+            }
+        }
+    }
+}
+
 pub fn run(tier: Tier) -> i32 {
     let mut rep = Report::new("C05", tier);
     // part 2 first (cheap)
@@ -403,6 +438,19 @@ fn tx_cfg_from(art: &serde_json::Value) -> Option<TxCfg> {
     let s = art["replay"]["config"].as_str()?;
     tx_configs(Tier::Thorough).into_iter().map(|c| c.0).find(|c| format!("{:?}", c) == s)
 }
+/// C02 = deviation-bounded two-endpoint search (tcp2) + the finite-deadline clause against the
+/// adversarial peer of this module
+pub fn run_c02(tier: Tier) -> i32 {
+    let mut rep = Report::new("C02", tier);
+    crate::tcp2::explore_all(&mut rep, tier, &["C02/", "panic/"]);
+    explore_for_c02(&mut rep, tier);
+    rep.cov("rule_adversarial_peer", json!("after every event of the tcp1 sender BFS (explorer plays the peer: ACK {dup,+1,middle,all} x window values incl. 0 and shrinking windows, stale ACK replays, writes, close, ticks, device refusing frames): a live socket with queued/unacknowledged data or an unacknowledged SYN/FIN must make Interface::poll_at return Some"));
+    rep.finish()
+}
+pub fn replay_c02(art: &serde_json::Value) -> i32 {
+    replay(art)
+}
+
 pub fn replay(art: &serde_json::Value) -> i32 {
     if art["replay"]["harness"].as_str() == Some("tcp1tx") {
         return match tx_cfg_from(art) {
